@@ -120,7 +120,8 @@ def histories(rep, hist, cfgs):
 def show_sm(g, c):
     var = c["var"]
     arg = var.get("fn") or (repr(wire.from_units(var["t"])) if "t" in var else ("" if var.get("lim", -1) < 0 else str(var["lim"])))
-    return "%r.%s(/%s/%s%s) lastIndex=%d" % (wire.from_units(c["s"]), var["m"], wire.from_units(g["src"]), g["flags"], ", " + arg if arg else "", c["li0"])
+    return "%r.%s(/%s/%s%s) lastIndex=%d%s" % (wire.from_units(c["s"]), var["m"], wire.from_units(g["src"]), g["flags"], ", " + arg if arg else "", c["li0"],
+                                                  " after exec" if c.get("pre") else "")
 
 
 def string_methods(rep, grid, pats):
@@ -133,6 +134,9 @@ def string_methods(rep, grid, pats):
                 for var in grid["variants"]:
                     for li0 in (li0s if "y" in fl else li0s[:1]):          # lastIndex before the call matters to sticky regexes only
                         g["cases"].append({"id": ncase, "s": s, "li0": li0, "var": var})
+                        ncase += 1
+                    if fl and var in grid["afterexec"]:                     # the same call right after an exec() (global / sticky)
+                        g["cases"].append({"id": ncase, "s": s, "li0": 0, "var": var, "pre": "exec"})
                         ncase += 1
             groups.append(g)
     rep.spaces.append({"space": "string methods: %d patterns x %d flag sets x %d subjects x %d variants (x lastIndex before the call for sticky)"
@@ -148,9 +152,12 @@ def string_methods(rep, grid, pats):
     recs = []
     for r in results:
         g, c = bycase[r["id"]]
-        recs.append({"id": r["id"], "ast": g["ast"], "flags": g["flags"], "s": c["s"], "li0": c["li0"], "var": c["var"], "out": r["out"]})
-    if len(recs) != ncase:
-        raise Machinery("engine returned %d results for %d string-method cases" % (len(recs), ncase))
+        if r.get("li1", 0) < 0:
+            rep.mismatch(show_sm(g, c) + " [lastIndex before the call]", {"expected": "an integer", "actual": r.get("li1"), "case": c}, dev="")
+            continue
+        recs.append({"id": r["id"], "ast": g["ast"], "flags": g["flags"], "s": c["s"], "li0": c["li0"], "li1": r.get("li1", c["li0"]), "var": c["var"], "out": r["out"]})
+    if len(results) != ncase:
+        raise Machinery("engine returned %d results for %d string-method cases" % (len(results), ncase))
     t0, c0 = time.time(), cpu()
     verdicts, st, tr, wall = tlc.judge(rep.pid, "C20", recs, JUDGE_CFG, tag="judge_sm", timeout=14400)
     rep.notes["sm_judge_wall_cpu_s"] = [round(time.time() - t0, 1), round(cpu() - c0, 1)]
